@@ -1082,7 +1082,7 @@ Not applicable (run-time values): resolution of references, nested CHOICE/SEQUEN
     value_reference(m, ctx, "C07.ref");
     nested_choice_value(m, ctx, "C07.nest");
     nested_choice_ident(m, ctx, "C07.nest");
-    implicit_defaults(m, ctx, "C07.struct");
+    implicit_defaults(m, ctx, "C07.struct", true);
     cstring_end(m, ctx, "C07.cstring");
     single_element_list(m, ctx, "C07.list");
     nesting(m, ctx, "C07.nest");
@@ -1101,7 +1101,7 @@ Not applicable (run-time values): resolution of references, nested CHOICE/SEQUEN
 /// `SEQUENCE { a INTEGER, b Num DEFAULT two }` with the DEFAULT raw, and with the DEFAULT in each linked form: the implicit
 /// value is the named number's value under its type in every case — never a bare reference (rendered as a constant `TWO`
 /// nobody declares), and a DEFAULT that is linked already is taken over unchanged (not wrapped a second time).
-pub fn implicit_defaults(m: &Model, ctx: &mut Ctx, rule: &str) {
+pub fn implicit_defaults(m: &Model, ctx: &mut Ctx, rule: &str, written_and_optional: bool) {
     use std::collections::BTreeMap as Map;
     let Some(f) = m.fns.iter().find(|f| f.name == "link_struct_like" && f.self_ty.as_deref() == Some("ASN1Value")) else {
         ctx.fail_closed(rule, "anchor not found: ASN1Value::link_struct_like");
@@ -1165,11 +1165,11 @@ pub fn implicit_defaults(m: &Model, ctx: &mut Ctx, rule: &str) {
     // (the field is an Option<T>) and may be left out
     let nine = Val::Ctor("Integer".into(), vec![Val::int(9)], Map::new());
     let three = Val::Ctor("Integer".into(), vec![Val::int(3)], Map::new());
-    for (written, opt_label, opt) in [
+    for (written, opt_label, opt) in if !written_and_optional { vec![] } else { vec![
         (true, "DEFAULT", Val::Ctor("Default".into(), vec![three.clone()], Map::new())), (false, "DEFAULT", Val::Ctor("Default".into(), vec![three.clone()], Map::new())),
         (true, "mandatory", Val::ctor("Required")), (false, "mandatory", Val::ctor("Required")),
         (true, "OPTIONAL", Val::ctor("Optional")), (false, "OPTIONAL", Val::ctor("Optional")),
-    ] {
+    ] } {
         let key = format!("component written={} {}", written, opt_label);
         ctx.oblige(rule, &key, true);
         depth.set(0);
